@@ -541,7 +541,7 @@ SHARD_OF = {}     # scenario id -> index of the shard (broker process) that exec
 BRIDGES_OF = {}   # scenario id -> configured bridge list of the shard that executed it
 
 
-MAX_TRACE_EVENTS = 45000    # TLC handles behaviours of at most 65535 states; one event is one state
+MAX_TRACE_EVENTS = 25000    # TLC handles behaviours of at most 65535 states; an event is one state plus up to two silent steps
 
 
 def validate(chk, by_sc, locked=False, max_rounds=12, bridges=None, start_resync=False):
